@@ -395,8 +395,11 @@ def write_replay(pid: str, payload: dict) -> Path:
 
 
 def write_evidence(pid: str, ev: dict):
-    EVIDENCE.mkdir(exist_ok=True)
-    (EVIDENCE / f"{pid}.json").write_text(json.dumps(ev, indent=1, default=str))
+    # evidence is only ever written from runs against /repo itself; runs against a scratch copy
+    # (VERIF_REPO=..., used for mutants and by builders) write to .work/ instead
+    d = EVIDENCE if str(REPO) == "/repo" else WORK / "evidence_scratch"
+    d.mkdir(parents=True, exist_ok=True)
+    (d / f"{pid}.json").write_text(json.dumps(ev, indent=1, default=str))
 
 
 def clean_work(ctx: Ctx):
